@@ -144,6 +144,11 @@ def specs(tier):
     add("2d mr x cat", "two_d", dict(rows=V("mr", "a", 2), cols=V("cat", "b", nv, (0,))))
     add("2d mr x mr", "two_d", dict(rows=V("mr", "a", 2), cols=V("mr", "b", 2)), max_paths=120)
     add("2d ca", "two_d", dict(rows=V("ca", "a", (2, 2), (1,)), cols=None))
+    # an array whose categories look like a dichotomy (a 'selected' flag) but do not arrive as [1, 0, -1] is a categorical array
+    add("2d ca with selected-flag cats in payload order 0,1,-1", "two_d",
+        dict(rows=("ca", "a", (2, 2), {"cats": [(0, False), (1, False), (-1, True)], "selected_id": 1}), cols=None))
+    add("2d ca with selected-flag cats in payload order -1,1,0", "two_d",
+        dict(rows=("ca", "a", (2, 2), {"cats": [(-1, True), (1, False), (0, False)], "selected_id": 1}), cols=None))
     add("2d catdate x cat", "two_d", dict(rows=V("catdate", "a", nv, (0,)), cols=V("cat", "b", nv, (1,))))
     add("2d cat x cat unweighted", "two_d", dict(rows=V("cat", "a", nv, (1,)), cols=V("cat", "b", nv, (0,)), weighted=False))
     # 1-D
